@@ -84,8 +84,25 @@ VerdictCons(ev) ==
            jc == JudgeConsensus(ev.cons, ev.kused, N, W, ch)
        IN IF jc = "ok" THEN "ok" ELSE "consensus_build_" \o jc
 
+(* kind "qry": an index built from the references, Query of s and of its reverse complement r (hit[i] = 1 when *)
+(* reference i is among the answers), the same queries asked by several goroutines at once (conc = number of   *)
+(* answers that differed).  A reference is hit exactly when it shares a canonical k-mer with the query, so the *)
+(* two strands hit the same references.                                                                          *)
+VerdictQry(ev) ==
+  LET sparse == ev.sp = 1
+      Keys(t) == RangeOf(CanonKmers(t, ev.k, sparse))
+      qk == Keys(ev.s)
+      want == [i \in 1..Len(ev.refs) |-> IF Keys(ev.refs[i]) \cap qk # {} THEN 1 ELSE 0]
+  IN IF ev.r # KmerRevCompSeq(ev.s) THEN "harness_bad_revcomp"
+     ELSE IF ev.pan = 1 THEN "index_panic"
+     ELSE IF ev.hit # ev.rhit THEN "query_strand_invariance"
+     ELSE IF ev.hit # want THEN "query_matches"
+     ELSE IF ev.conc # 0 THEN "query_concurrent"
+     ELSE "ok"
+
 Verdict(ev) ==
   CASE ev.kind = "idx"   -> VerdictIdx(ev)
+    [] ev.kind = "qry"   -> VerdictQry(ev)
     [] ev.kind = "cons"  -> VerdictCons(ev)
     [] ev.kind = "four"  -> VerdictFour(ev)
     [] ev.kind = "graph" -> VerdictGraph(ev)
